@@ -148,6 +148,9 @@ def gen_trace(rng, mode):
             tr += rx_packet(rng, token(SETUP), speed, fv(), gaps) + gap()
         elif r < 0.25:      # unrelated packet between token and data
             tr += rx_packet(rng, junk_packet(rng), speed, fv(), gaps) + gap()
+        elif r < 0.40:      # over-long data stage (valid setup packet + extra bytes), then the real one after a new token
+            tr += rx_packet(rng, overlong_packet(rng), speed, fv(), gaps) + idle(rng.choice([14, 16]), speed)
+            tr += rx_packet(rng, token(SETUP), speed, fv(), gaps) + gap()
         tr += rx_packet(rng, data(rand_payload(rng, 8), pid=rng.choice([DATA0, DATA0, DATA1])), speed, fv(), gaps)
         tr += idle(rng.choice([14, 15, 20]), speed)
     return tr
@@ -173,7 +176,22 @@ def directed(rng):
         # plain valid SETUP, short SETUP payload, SETUP to a foreign address
         out.append(pk(token(SETUP)) + idle(2, speed) + pk(data(REF_SETUP)) + tail + pk(token(SETUP)) + idle(2, speed) + pk(data(REF_SETUP[:7])) + tail
                    + pk(token(SETUP, addr=5)) + idle(2, speed) + pk(data(REF_SETUP)) + tail)
+        # over-long data stage: a complete valid setup data packet (8 bytes + CRC16) followed by 1..5 extra bytes,
+        # without and with a valid CRC16 over the whole thing; never a setup request, no ACK
+        good = data(REF_SETUP)
+        for k in (1, 2, 3, 5):
+            ex = [rng.randrange(256) for _ in range(k)]
+            out.append(idle(1, speed) + pk(token(SETUP)) + idle(2, speed) + pk(good + ex) + tail)
+            out.append(idle(1, speed) + pk(token(SETUP)) + idle(2, speed) + pk(data(good[1:] + ex)) + tail
+                       + pk(token(SETUP)) + idle(2, speed) + pk(good) + tail)
     return out
+
+
+def overlong_packet(rng):
+    """valid 8-byte data packet followed by extra bytes (optionally with a valid overall CRC)"""
+    good = data(rand_payload(rng, 8), pid=rng.choice([DATA0, DATA1]))
+    ex = [rng.randrange(256) for _ in range(rng.randint(1, 5))]
+    return good + ex if rng.random() < 0.5 else data(good[1:] + ex, pid=good[0])
 
 
 def traces(target, rng, tier):
@@ -186,7 +204,9 @@ def sweeps(tier):
     return [("setup_bytes_hs", "sweep_setup_byte 0", 11,
              "high speed: SETUP token + DATA0 with each of the 8 setup bytes taking all 256 values (correct CRC16)"),
             ("setup_crcflip_fs", "sweep_setup_crcflip 1", 4,
-             "full speed: SETUP token + DATA0 with each single CRC16 bit flipped")] + \
+             "full speed: SETUP token + DATA0 with each single CRC16 bit flipped"),
+            ("setup_extra_hs", "sweep_setup_extra 0", 10,
+             "high speed: SETUP token + a complete valid setup data packet followed by 1..4 copies of each of the 256 byte values")] + \
            ([("setup_bytes_fs", "sweep_setup_byte 1", 11, "full speed: same byte sweep, incl. the delayed ACK")]
             if tier != "quick" else [])
 
